@@ -377,11 +377,13 @@ func Event(s string) {
 // is a plain go statement.
 func Go(f func()) { GoNamed("", f) }
 
-func GoNamed(name string, f func()) {
+// GoNamed is Go with a thread name; it returns the new controlled thread (nil when the caller
+// is not controlled) so that the harness can WaitFor it.
+func GoNamed(name string, f func()) *Thread {
 	t := Self()
 	if t == nil {
 		go f()
-		return
+		return nil
 	}
 	e := ex
 	nt := &Thread{ID: len(e.threads), Name: name, wake: make(chan struct{}, 1), spin: -1}
@@ -396,6 +398,21 @@ func GoNamed(name string, f func()) {
 	}()
 	<-started
 	e.point(t, KSpawn, nil, true)
+	return nt
+}
+
+// WaitFor blocks the calling controlled thread until the given threads have finished.
+func WaitFor(ts ...*Thread) {
+	t := Self()
+	if t == nil {
+		return
+	}
+	e := ex
+	for _, x := range ts {
+		for x != nil && !x.done && e.fail == "" {
+			Block(t, x)
+		}
+	}
 }
 
 func (e *execution) exit(t *Thread) {
